@@ -475,6 +475,14 @@ func (s *Server) handleBatchRequest(ctx context.Context, batchReq []json.RawMess
 func isBatch(reader *bufio.Reader) bool {
 	for n := 1; ; n++ {
 		buf, err := reader.Peek(n)
+		if errors.Is(err, bufio.ErrBufferFull) {
+			// the whole buffer is leading whitespace: drop it and keep looking for the first token
+			if _, err = reader.Discard(n - 1); err != nil {
+				return false
+			}
+			n = 0
+			continue
+		}
 		if err != nil {
 			return false
 		}
